@@ -3,7 +3,7 @@
 d=$(mktemp -d /tmp/tp-XXXXXX); mods=${2:-$(grep '^+++ b/' "$1" | cut -d/ -f2 | sort -u | grep -E 'bigtable|storage' | paste -sd,)}
 rsync -a --exclude .git /repo/ $d/ && mkdir -p $d.verif && cp /verif/known_findings.json $d.verif/
 (cd $d && git apply "$1") || { echo "patch does not apply"; rm -rf $d $d.verif; exit 2; }
-/verif/bin/emucheck all -repo $d -verif $d.verif -modules $mods | python3 -c "
+${EMUCHECK:-/verif/bin/emucheck} all -repo $d -verif $d.verif -modules $mods | python3 -c "
 import json,sys; d=json.load(sys.stdin); any=False
 for p,v in sorted(d.items()):
     if v['exit']:
